@@ -1,12 +1,18 @@
 #!/usr/bin/env python3
-"""tools/seedtest.py [C01 | C01-2 ...] [--tier=quick] [--checks=C01,C02] [--seed=0] [--write-meta]
-Apply seeded/<id>/patch.diff to /repo, run the check(s) of its property, revert straight afterwards.  With --write-meta the outcome
-is recorded in seeded/<id>/meta.json (what the change targets, what it needs to manifest, what was run and what it reported)."""
-import glob, json, os, re, subprocess, sys, time
+"""tools/seedtest.py [C01 | C01-2 ...] [--tier=quick] [--checks=C01,C02] [--seed=0] [--write-meta] [--jobs=N]
+
+Runs the check(s) of a property against a deliberately broken variant of the repository (seeded/<id>/patch.diff).
+
+Default (jobs=1): the patch is applied to /repo itself (git -C /repo apply), the check is run, and /repo is restored straight
+afterwards (git -C /repo checkout -- .).  With --jobs=N > 1 each variant gets its own scratch worktree of /repo's HEAD under
+$TMPDIR (removed afterwards) and the check is pointed at it with VERIF_REPO, so several variants can be tried at once while
+/repo stays untouched.  With --write-meta the outcome is recorded in seeded/<id>/meta.json."""
+import concurrent.futures, glob, json, os, re, subprocess, sys, tempfile, time, shutil
 HERE = os.path.dirname(os.path.dirname(os.path.abspath(__file__)))
 args = [a for a in sys.argv[1:] if not a.startswith('--')]
 opts = dict((a[2:].split('=', 1) + ['1'])[:2] for a in sys.argv[1:] if a.startswith('--'))
 tier = opts.get('tier', 'quick')
+jobs = int(opts.get('jobs', '1'))
 alld = sorted(os.path.basename(p) for p in glob.glob(os.path.join(HERE, 'seeded', 'C??-*')))
 ids = [d for d in alld if not args or d in args or d.split('-')[0] in args]
 assert subprocess.run(['git', '-C', '/repo', 'status', '--porcelain', '--untracked-files=no'], capture_output=True, text=True).stdout.strip() == '', '/repo not clean'
@@ -15,17 +21,17 @@ assert subprocess.run(['git', '-C', '/repo', 'status', '--porcelain', '--untrack
 def needs_of(notes):
     out, on = [], False
     for l in notes.splitlines():
-        if re.match(r"\s*[-*]\s*\**\s*(Need|What it needs)", l, re.I):
+        if re.match(r"\s*[-*]?\s*\**\s*(Need|What it needs|Required to manifest|To manifest)", l, re.I):
             on = True
             out.append(re.sub(r"^\s*[-*]\s*", "", l))
-        elif on and (re.match(r"\s*[-*#]\s*", l) or not l.strip()):
+        elif on and (re.match(r"\s*[-*#]\s+", l) or not l.strip()):
             break
         elif on:
             out.append(l.strip())
     return " ".join(out)
 
 
-for sid in ids:
+def one(sid):
     d = os.path.join(HERE, 'seeded', sid)
     pid = sid.split('-')[0]
     checks = opts.get('checks', pid).split(',')
@@ -34,26 +40,40 @@ for sid in ids:
     meta = {"id": sid, "property": pid, "title": (notes.splitlines() or [''])[0].lstrip('# ').strip(),
             "touches": sorted(set(re.findall(r"^\+\+\+ b/(\S+)", open(patch).read(), re.M))),
             "needs_to_manifest": needs_of(notes), "demonstration": "demo.py (exit 0 on the unchanged tree, non-zero with the change; see notes.md)",
-            "existing_tests_with_change": "415 baseline tests still pass (run by the sub-agent that produced the change, in its own scratch worktree)",
+            "existing_tests_with_change": "the 415 baseline tests still pass (run by the sub-agent that produced the change, in its own scratch worktree)",
             "ran": []}
-    r = subprocess.run(['git', '-C', '/repo', 'apply', patch], capture_output=True, text=True)
-    if r.returncode:
-        print(sid, 'PATCH DOES NOT APPLY', r.stderr[:300])
-        meta["ran"].append({"command": "git -C /repo apply seeded/%s/patch.diff" % sid, "result": "does not apply to the current tree: " + r.stderr.strip()[:300]})
+    lines = []
+    if jobs > 1:
+        repo = tempfile.mkdtemp(prefix="nvseedwt_%s_" % sid)
+        os.rmdir(repo)
+        subprocess.run(['git', '-C', '/repo', 'worktree', 'add', '--detach', '-q', repo, 'HEAD'], check=True, capture_output=True)
+        where = "a scratch worktree of /repo's HEAD"
     else:
-        try:
+        repo, where = '/repo', '/repo'
+    try:
+        r = subprocess.run(['git', '-C', repo, 'apply', patch], capture_output=True, text=True)
+        if r.returncode:
+            lines.append('%s PATCH DOES NOT APPLY %s' % (sid, r.stderr[:300]))
+            meta["ran"].append({"command": "git apply seeded/%s/patch.diff" % sid, "result": "does not apply to the current tree: " + r.stderr.strip()[:300]})
+        else:
             for c in checks:
                 t = time.time()
+                evd = tempfile.mkdtemp(prefix="nvseed_ev_")
                 r = subprocess.run([os.path.join(HERE, 'check'), c, '--tier', tier], capture_output=True, text=True, cwd=HERE,
-                                   env=dict(os.environ, VERIF_SEED=opts.get('seed', '0'), VERIF_EVIDENCE_DIR='/tmp/nvseed_evidence'))
+                                   env=dict(os.environ, VERIF_SEED=opts.get('seed', '0'), VERIF_EVIDENCE_DIR=evd, VERIF_REPO=repo))
+                shutil.rmtree(evd, ignore_errors=True)
                 viol = [l for l in r.stdout.splitlines() if l.startswith('VIOLATION')]
                 what = [l.strip()[6:] for l in r.stdout.splitlines() if l.startswith('  what:')]
-                print('%s check=%s rc=%d violations=%d %.0fs %s' % (sid, c, r.returncode, len(viol), time.time() - t, (what[0][:160] if what else '')), flush=True)
+                lines.append('%s check=%s rc=%d violations=%d %.0fs %s' % (sid, c, r.returncode, len(viol), time.time() - t, (what[0][:160] if what else '')))
                 if r.returncode == 2:
-                    print('   ', [l for l in r.stdout.splitlines() if l.startswith('INCONCLUSIVE')][:2])
-                meta["ran"].append({"command": "./check %s --tier %s (VERIF_SEED=%s) on /repo with the patch applied" % (c, tier, opts.get('seed', '0')),
+                    lines.append('    %s' % [l for l in r.stdout.splitlines() if l.startswith('INCONCLUSIVE')][:2])
+                meta["ran"].append({"command": "./check %s --tier %s (VERIF_SEED=%s) on %s with the patch applied" % (c, tier, opts.get('seed', '0'), where),
                                     "exit": r.returncode, "violation_lines": len(viol), "first_reports": what[:3], "wall_s": round(time.time() - t)})
-        finally:
+    finally:
+        if jobs > 1:
+            subprocess.run(['git', '-C', '/repo', 'worktree', 'remove', '--force', repo], capture_output=True)
+            shutil.rmtree(repo, ignore_errors=True)
+        else:
             subprocess.run(['git', '-C', '/repo', 'checkout', '--', '.'], check=True)
     meta["caught"] = any(x.get("exit") == 1 for x in meta["ran"])
     if 'write-meta' in opts:
@@ -61,10 +81,19 @@ for sid in ids:
         mp = os.path.join(d, 'meta.json')
         if os.path.exists(mp):
             old = json.load(open(mp))
-        for k in ("history", "ported"):
+        for k in ("history", "ported", "round"):
             if k in old:
                 meta[k] = old[k]
         with open(mp, 'w', encoding='utf-8') as f:
             json.dump(meta, f, indent=1, ensure_ascii=False)
             f.write("\n")
-subprocess.run(['rm', '-rf', os.path.join(HERE, 'replay'), '/tmp/nvseed_evidence'])
+    return lines
+
+
+with concurrent.futures.ThreadPoolExecutor(jobs) as ex:
+    for lines in ex.map(one, ids):
+        for l in lines:
+            print(l, flush=True)
+if 'keep-replay' not in opts:
+    subprocess.run(['rm', '-rf', os.path.join(HERE, 'replay')])
+subprocess.run(['git', '-C', '/repo', 'worktree', 'prune'])
